@@ -12,6 +12,7 @@ use world::monitors::c10_restart::RestartMonitor;
 use world::monitors::pay::PayMonitor;
 use world::monitors::c12_serial::SerialMonitor;
 use world::monitors::onchain::OnchainMonitor;
+use world::monitors::c19_mup::MupMonitor;
 use world::monitors::Monitor;
 use world::run::{run_one, Crash, Profile};
 
@@ -28,7 +29,8 @@ fn main() {
 	}
 	let runs = args.num("runs", 160, 8000);
 	let with_serial = args.prop == "C12";
-	let make = move || -> Vec<Box<dyn Monitor>> { let mut v: Vec<Box<dyn Monitor>> = vec![Box::new(CommitMonitor::new()), Box::new(RevokeMonitor::new()), Box::new(OrderMonitor::new()), Box::new(RestartMonitor::new()), Box::new(PayMonitor::new())]; if with_serial { v.push(Box::new(SerialMonitor::new())); } v.push(Box::new(OnchainMonitor::new())); v };
+	let with_mup = args.prop == "C19";
+	let make = move || -> Vec<Box<dyn Monitor>> { let mut v: Vec<Box<dyn Monitor>> = vec![Box::new(CommitMonitor::new()), Box::new(RevokeMonitor::new()), Box::new(OrderMonitor::new()), Box::new(RestartMonitor::new()), Box::new(PayMonitor::new())]; if with_serial { v.push(Box::new(SerialMonitor::new())); } v.push(Box::new(OnchainMonitor::new())); if with_mup { v.push(Box::new(MupMonitor::new())); } v };
 	let only: Option<u64> = args.kv.get("only_run").map(|s| s.parse().unwrap());
 	let mode = args.kv.get("mode").cloned().unwrap_or_else(|| "random".to_string());
 	let mut i = args.shard;
